@@ -660,6 +660,8 @@ class _Walker:
             if (not shallow and not e.args) or getattr(self.fa, 'copy_on_write', False):
                 return FRESH
             return AV(E, recv.flat().deep | recv.flat().outer)
+        if name in getattr(self.fa, 'copying_constructors', ()) and any(k.arg == 'copy' and isinstance(k.value, ast.Constant) and k.value.value is True for k in e.keywords):
+            return FRESH                         # pd.DataFrame(data, ..., copy=True): the data are copied (contract of the check that set it)
         if getattr(self.fa, 'constructors', False) and isinstance(f, ast.Name) and f.id not in env:
             ck, cm = self.fa.src.method(f.id, '__init__')
             if cm is not None:
